@@ -57,6 +57,11 @@ def pages_worker(args):
             c.send(proto.http_encode(r))
             raw, _ = c.recv_all(10)
             c.close()
+            # the response is sent before the page is stored (store_page finalizes first): wait until the handler has finished,
+            # otherwise the next request or rise would race with that store
+            tk = tok.decode()
+            if not S.wait_events(lambda evs: any(e.get("token") == tk and e.get("ev") == "written" for e in reversed(evs[-200:])), 10):
+                cnt("handler_end_not_seen")
             return proto.http_parse_response(raw)
         for ci in range(ncases):
             app = rnd.choice([b"/writer", b"/awriter"])
